@@ -104,6 +104,9 @@ func (p *Pool) Put(x any) {
 	p.mu.Lock()
 	p.items = append(p.items, x)
 	p.mu.Unlock()
+	// the object is up for grabs from here on: whoever still uses it (or memory it owns)
+	// after Put races with the next Get
+	Yield("pool.Put/post")
 }
 
 // Once is a cooperative stand-in for sync.Once (simgen rewrites the type): a
